@@ -160,6 +160,15 @@ func (o *ExpressionOptimizer) tryOptimizeBinaryOpExecute(e *BinaryOpExpr) (Expre
 	return e, false
 }
 
+func exprHasAggrFunc(expr Expression) bool {
+	found := false
+	walkAggrFuncs(expr, func(e *FunctionCallExpr, fname string) bool {
+		found = true
+		return false
+	})
+	return found
+}
+
 func (o *ExpressionOptimizer) tryOptimizeAndOr(expr Expression) (Expression, bool) {
 	var (
 		leftVal      bool
@@ -185,6 +194,12 @@ func (o *ExpressionOptimizer) tryOptimizeAndOr(expr Expression) (Expression, boo
 	case *BoolExpr:
 		rightIsValue = true
 		rightVal = right.Bool
+	}
+
+	// An operand that holds an aggregate function is never dropped: the
+	// field must stay an aggregate field (count(1) > 0 | 1 = 1)
+	if (leftIsValue && !rightIsValue && exprHasAggrFunc(e.Right)) || (rightIsValue && !leftIsValue && exprHasAggrFunc(e.Left)) {
+		return e, false
 	}
 
 	if leftIsValue && !rightIsValue {
